@@ -148,12 +148,12 @@ func oracle(c *Case, o *Obs) []Finding {
 		}
 		var ref wrapperspb.StringValue
 		if err := proto.Unmarshal(m.Frames[i], &ref); err != nil {
-			add("fabricated-message", fmt.Sprintf("message #%d %q delivered for an undecodable frame % x", i, o.DeliveredS[i], m.Frames[i]))
+			add("fabricated-message", fmt.Sprintf("message #%d %q delivered for an undecodable frame %s", i, o.DeliveredS[i], abbr(fmt.Sprintf("% x", m.Frames[i]))))
 			break
 		}
 		var got wrapperspb.StringValue
 		if err := proto.Unmarshal(d, &got); err != nil || !proto.Equal(&ref, &got) {
-			add("altered-message", fmt.Sprintf("message #%d delivered as %q, encoded as %q", i, o.DeliveredS[i], ref.Value))
+			add("altered-message", fmt.Sprintf("message #%d delivered as %q, encoded as %q (%s)", i, o.DeliveredS[i], abbr(ref.Value), firstDiff(got.Value, ref.Value)))
 			break
 		}
 	}
